@@ -67,7 +67,12 @@ def check_gene(spec, ctx):
         except ValidationException:
             pass
         return
-    gene = mkgene(g, parent)
+    if spec.get("collection_without_parent") and parent is not None:
+        # the members carry the sequence, the grouping object was built without a parent (it is an optional argument)
+        gene = mkgene(g, parent, parent_or_seq_chunk_parent=None)
+        ctx.label("members_carry_the_sequence")
+    else:
+        gene = mkgene(g, parent)
     lo, hi = min(t["exons"][0][0] for t in txs), max(t["exons"][-1][1] for t in txs)
     ctx.eq("span", (gene.start, gene.end), (lo, hi))
     ctx.eq("span_location", (gene.chromosome_location.start, gene.chromosome_location.end), (lo, hi))
@@ -127,6 +132,31 @@ def check_gene(spec, ctx):
     except Exception as e:
         ctx.fail("merged_cds_raises", {"exc": repr(e)[:100], "strands": sorted(strands), "gene_type": g.get("gene_type")})
     ctx.eq("iter_children_order", [t.guid for t in gene.iter_children()], [t.guid for t in gene.transcripts])
+    # a sub-gene selected AFTER the merged forms were computed covers its own members only, and the full gene answers as before
+    if len(txs) >= 2:
+        for keep in ([0], [len(txs) - 1], list(range(len(txs) - 1))):
+            try:
+                sub = gene.query_by_guids([gene.transcripts[i].guid for i in keep])
+            except Exception as e:
+                ctx.fail("query_by_guids_raises", repr(e)[:100])
+                continue
+            if sub is None:
+                ctx.fail("query_by_guids_lost_members", keep)
+                continue
+            own = set()
+            for i in keep:
+                own |= tx_positions(txs[i])
+            try:
+                ctx.eq("subset_after_merge:merged_transcript_positions", sorted(rm.posset(rm.loc_blocks(sub.get_merged_transcript().chromosome_location))), sorted(own), extra=keep)
+                ctx.eq("subset_after_merge:span", (sub.start, sub.end), (min(own), max(own) + 1), extra=keep)
+            except Exception as e:
+                ctx.fail("subset_after_merge_raises", {"exc": repr(e)[:100], "keep": keep})
+        ctx.label("subset_selected_after_merge")
+        try:
+            ctx.eq("merged_transcript_again:positions", sorted(rm.posset(rm.loc_blocks(gene.get_merged_transcript().chromosome_location))), sorted(union_tx))
+            ctx.eq("members_blocks_after_merges", [rm.loc_blocks(t.chromosome_location) for t in gene.transcripts], [[tuple(b) for b in rm.sorted_blocks(t["exons"])] for t in txs])
+        except Exception as e:
+            ctx.fail("merged_transcript_again_raises", repr(e)[:100])
 
 
 def check_fc(spec, ctx):
@@ -154,7 +184,11 @@ def check_fc(spec, ctx):
         except ValidationException:
             pass
         return
-    fc = mkfc(c, parent)
+    if spec.get("collection_without_parent") and parent is not None:
+        fc = mkfc(c, parent, parent_or_seq_chunk_parent=None)
+        ctx.label("members_carry_the_sequence")
+    else:
+        fc = mkfc(c, parent)
     lo, hi = min(f["blocks"][0][0] for f in feats), max(f["blocks"][-1][1] for f in feats)
     ctx.eq("fc_span", (fc.start, fc.end), (lo, hi))
     ctx.eq("fc_is_coding", fc.is_coding, False)
@@ -179,6 +213,25 @@ def check_fc(spec, ctx):
         ctx.eq("fc_merged:types", sorted(m.feature_types), sorted(types))
     except Exception as e:
         ctx.fail("fc_merged_raises", {"exc": repr(e)[:100], "strands": sorted(strands)})
+    if len(feats) >= 2:
+        for keep in ([0], [len(feats) - 1], list(range(len(feats) - 1))):
+            try:
+                sub = fc.query_by_guids([fc.feature_intervals[i].guid for i in keep])
+                own = set()
+                for i in keep:
+                    own |= rm.posset(feats[i]["blocks"])
+                if sub is None:
+                    ctx.fail("fc_query_by_guids_lost_members", keep)
+                    continue
+                ctx.eq("fc_subset_after_merge:merged_feature_positions", sorted(rm.posset(rm.loc_blocks(sub.get_merged_feature().chromosome_location))), sorted(own), extra=keep)
+            except Exception as e:
+                ctx.fail("fc_subset_after_merge_raises", {"exc": repr(e)[:100], "keep": keep})
+        ctx.label("subset_selected_after_merge")
+        try:
+            ctx.eq("fc_merged_again:positions", sorted(rm.posset(rm.loc_blocks(fc.get_merged_feature().chromosome_location))), sorted(union))
+            ctx.eq("fc_members_blocks_after_merges", [rm.loc_blocks(f_.chromosome_location) for f_ in fc.feature_intervals], [[tuple(b) for b in rm.sorted_blocks(f_["blocks"])] for f_ in feats])
+        except Exception as e:
+            ctx.fail("fc_merged_again_raises", repr(e)[:100])
 
 
 def check_collection_order(spec, ctx):
@@ -240,6 +293,7 @@ def strat_gene(draw, tier="quick"):
             a = draw(st.integers(0, hi))
             sp["chunk"] = [a, draw(st.integers(a + 1, len(sp["genome"])))]
             sp.update(draw(S.chunk_flavour()))
+        sp["collection_without_parent"] = draw(st.integers(0, 3)) == 0
     return sp
 
 
@@ -267,6 +321,7 @@ def strat_fc(draw, tier="quick"):
             a = draw(st.integers(0, hi))
             sp["chunk"] = [a, draw(st.integers(a + 1, len(sp["genome"])))]
             sp.update(draw(S.chunk_flavour()))
+        sp["collection_without_parent"] = draw(st.integers(0, 3)) == 0
     return sp
 
 
